@@ -44,9 +44,14 @@ ASSUMPTIONS = [
     'str(int) / f"{int}" renders the shortest decimal (Lean Nat.toDigits 10), checked on every generated UUID',
     'pydicom.uid.generate_uid(prefix) returns prefix + decimal of a number below 10**(64-len(prefix)) (its current source; '
     'exercised each run)',
-    'alias-flow extraction: x[...] / .reshape / np.newaxis are views, astype / arithmetic / comparisons / deepcopy are fresh '
-    'objects, augmented assignment and attribute/item assignment write; calls that only read their arguments are not '
-    'writes (each extracted program is replayed against the real function by the snapshot oracle)',
+    'alias-flow extraction (docs/C20.md lists every rule): x.f / x[...] / reshape are views that may also denote what was stored '
+    'there earlier (labelled links), astype / arithmetic / comparisons / deepcopy / unknown lower-case calls are fresh objects, '
+    'Capitalised calls keep references to their arguments, attribute / item assignment, mutating methods and augmented '
+    'assignment write, copy=False converter calls write deeply; loops and comprehension bodies run under an opaque condition; '
+    'constructors with more than 2^5 paths have the arms of their branches merged; calls the extractor does not know are '
+    'read-only (checked by the argument snapshots of every generated call and, per converter, by comparing the observed '
+    'same-object / altered-argument behaviour with what the program allows)',
+    'attribute VRs at the guard sites are those of the pydicom data dictionary',
     'write / read-back clauses: pydicom writer and validator are exercised, not modelled (support only)',
 ]
 MODELLED_NOT_VERIFIED = ['pydicom file writer / reader / value validation', 'copy.deepcopy', 'numpy view/copy semantics',
